@@ -340,6 +340,34 @@ class Interp:
         memo[key] = (seq, pos, c)
         return c
 
+    def exec_code(self, code, globs, locs):
+        """exec(compile(src)) for a concrete source: defines the functions of `src` into `locs` (a PDict)."""
+        import ast as _ast
+        from .source import ModuleInfo
+        from .values import CodeVal
+        if not isinstance(code, CodeVal):
+            raise Unsupported("exec of non-compiled value")
+        try:
+            tree = _ast.parse(code.src)
+        except SyntaxError:
+            self.raise_exc("SyntaxError")
+        gmod = globs.module if hasattr(globs, "module") else self.frames[-1].module
+        for st in tree.body:
+            if isinstance(st, (_ast.FunctionDef, _ast.AsyncFunctionDef)):
+                f = FuncVal(st, gmod, None, "<generated>." + st.name, None)
+                f.generated = True
+                f.generated_src = code.src
+                # defaults are evaluated at definition time (NameError surfaces here, as in CPython)
+                fr = Frame(f, {}, gmod)
+                self.frames.append(fr)
+                try:
+                    f.default_values = [self.eval(d) for d in st.args.defaults]
+                finally:
+                    self.frames.pop()
+                self.set_item(locs, st.name, f)
+            else:
+                raise Unsupported("exec of non-function statement")
+
     def in_real_code(self):
         """True if the innermost executing function body comes from the repository (not a sidecar spec)."""
         for fr in reversed(self.frames):
